@@ -63,9 +63,13 @@ let fmt_registry (clusters : z list) (r : (key * z) list) : string =
 
 exception Crashed_model of string
 
+(* case kinds: sys = the tree as it is (evaluator cache + pruning scrape); sys1 = before cc5e0f6 (cache, no pruning);
+   sys0 = before 8eaa8f9 / ff5734c / f85cddf as well (kept for the old witnesses; reads are modelled without the cache) *)
 let run (line : string) : string =
   let t = toks_of_line line in
-  let v0 = (match next t with "sys" -> false | "sys0" -> true | k -> failwith ("drv_metrics: unknown case kind " ^ k)) in
+  let kind = next t in
+  let v0 = (match kind with "sys" | "sys1" -> false | "sys0" -> true | k -> failwith ("drv_metrics: unknown case kind " ^ k)) in
+  let v1 = (kind = "sys1") in
   let intervals = next_int t in
   let expire = next_z t in
   let mindist = next_z t in
@@ -77,16 +81,18 @@ let run (line : string) : string =
   let cf = { cf_intervals = nat_of_int intervals; cf_expire = expire; cf_min_distance = mindist; cf_accept = (fun _ -> true) } in
   let sc = { sc_st = cf; sc_minimum = mincomplete; sc_allowed = allowed } in
   let storage_f = if v0 then sys_storage_v0 else sys_storage in
-  let scrape_f = if v0 then scrape_v0 else scrape in
   let del_topic = if v0 then delete_topic_metrics_v0 else delete_topic_metrics in
-  let sy = ref (init_sys clusters) in
+  let sy = ref (init_sys clusters) in           (* storage + registry *)
+  let ca = ref [] in                            (* evaluator cache *)
+  let lcache = ref (zi 3600000) in              (* expire-cache in ms *)
+  let rt = ref Z0 in                            (* logical real time in ms: only sleeps advance it *)
+  let zadd a b = coqz_of_zt (ZA.add (zt_of_coqz a) (zt_of_coqz b)) in
   let out = ref [] in
   let nops = next_int t in
   let storage now r : reply =
     match storage_f sc now !sy r with
     | None -> raise (Crashed_model "storage")
     | Some (sy', rep) -> sy := sy'; rep in
-  (* evaluator requests of the JSON endpoints; with the old purge the evaluator's fetch did not delete metrics either *)
   let status now c g show_all : gstatus option =
     if v0 then begin
       match storage now (FetchConsumer (c, g)) with
@@ -95,13 +101,18 @@ let run (line : string) : string =
                         | Ok gs -> Some (if show_all then gs else filter_view gs))
       | _ -> None
     end else
-      match json_status sc now !sy c g show_all with
+      match cjson_status sc !lcache !rt now { cs_sys = !sy; cs_cache = !ca } c g show_all with
       | None -> raise (Crashed_model "evaluator")
-      | Some (sy', o) -> sy := sy'; o in
+      | Some (cs', o) -> sy := cs'.cs_sys; ca := cs'.cs_cache; o in
   let do_scrape now : string =
-    match scrape_f sc now !sy with
-    | None -> "M PANIC"
-    | Some sy' -> sy := sy'; fmt_registry clusters sy'.s_reg in
+    if v0 then
+      (match scrape_v0 sc now !sy with
+       | None -> "M PANIC"
+       | Some sy' -> sy := sy'; fmt_registry clusters sy'.s_reg)
+    else
+      match (if v1 then cscrape_v1 else cscrape) sc !lcache !rt now { cs_sys = !sy; cs_cache = !ca } with
+      | None -> "M PANIC"
+      | Some cs' -> sy := cs'.cs_sys; ca := cs'.cs_cache; fmt_registry clusters cs'.cs_sys.s_reg in
   let read_json now : string list =
     let acc = ref [] in
     let add s = acc := s :: !acc in
@@ -145,10 +156,14 @@ let run (line : string) : string =
                 ignore (storage now (DeleteGroup (c, g, Z0)));
                 sy := { s_st = !sy.s_st; s_reg = delete_consumer_metrics c g !sy.s_reg }
       | "DG" -> let c = z () in let g = z () in let tp = z () in ignore (storage now (DeleteGroup (c, g, tp)))
-      | "R" -> let m = do_scrape now in let js = read_json now in
+      | "R" | "RW" -> if op = "R" then ca := [];
+               let m = do_scrape now in let js = read_json now in
                out := (String.concat " ; " (m :: js)) :: !out
-      | "RJ" -> let js = read_json now in let m = do_scrape now in
+      | "RJ" | "RJW" -> if op = "RJ" then ca := [];
+                let js = read_json now in let m = do_scrape now in
                 out := (String.concat " ; " (m :: js)) :: !out
+      | "XC" -> let secs = z () in lcache := coqz_of_zt (ZA.mul (zt_of_coqz secs) (ZA.of_int 1000)); ca := []
+      | "SL" -> let ms = z () in rt := zadd !rt ms
       | k -> failwith ("drv_metrics: unknown op " ^ k)
     done
   with Crashed_model w -> out := ("MODEL-CRASH " ^ w) :: !out);
